@@ -277,8 +277,19 @@ def check_facts(pid, facts):
             if f is None:
                 out.append(("len-check:" + name, None, "function not found"))
                 continue
-            ok = "writeLen" in f["callees"] and not f["len_conv"]
-            out.append(("len-check:" + name, True if ok else False, "callees=%s unchecked=%s" % (f["callees"], f["len_conv"])))
+            # through unexported helpers of the package: the prefix must be written by writeLen somewhere below, and no
+            # function on the way may convert a length to the prefix type unchecked
+            seen, todo, unchecked = set(), [name], []
+            while todo:
+                g = todo.pop()
+                if g in seen or fn(g) is None:
+                    continue
+                seen.add(g)
+                unchecked += fn(g)["len_conv"]
+                todo += [c for c in fn(g)["callees"] if c != "writeLen"]
+            reaches = any("writeLen" in fn(g)["callees"] for g in seen)
+            ok = False if unchecked else (True if reaches else None)   # neither: a shape the extractor does not know
+            out.append(("len-check:" + name, ok, "callees=%s unchecked=%s" % (sorted(seen - {name}) + (["writeLen"] if reaches else []), unchecked)))
         f = fn("writeLen")
         out.append(("len-check:writeLen", True if f is not None else None, "present" if f is not None else "missing"))
     if pid == "C19":
